@@ -60,7 +60,7 @@ func cmdDeterminism(args []string) int {
 	a.Stats["digests-compared-across-processes"] = compared
 	a.Stats["digest-mismatches-across-processes"] = mismatch
 	a.HarnessErrs = append(a.HarnessErrs, b.HarnessErrs...)
-	rc := concludeSim("C19", *tier, *seed, ts, a, toA+toB, wall, fmt.Sprintf("%s/evidence/C19.json", verifDir()))
+	rc := concludeSim("C19", *tier, *seed, ts, a, toA+toB, wall, fmt.Sprintf("%s/C19.json", evidenceDir()))
 	if rc == 0 && compared < ts.worlds/2 {
 		fmt.Println("INCONCLUSIVE: too few digests compared")
 		return 2
